@@ -176,6 +176,17 @@ def instances(tier):
             dict(Sc=50, Ss=50, segc=2, segs=3, msc=16, known=True, req=(60, 60), resp=(2, 2)),   # client cannot transmit
             dict(Sc=50, Ss=50, segc=3, segs=2, msc=16, known=True, req=(2, 2), resp=(60, 60)),   # server cannot transmit
         ]
+        # every pair of segmentation capabilities (0 both, 1 transmit, 2 receive, 3 none), both directions segmented
+        for segc in range(4):
+            for segs in range(4):
+                c = dict(Sc=50, Ss=50, segc=segc, segs=segs, msc=16, known=True, req=(60, 60), resp=(60, 60))
+                if c not in cfgs:
+                    cfgs.append(c)
+        # the receiver's size boundary for unequal sizes
+        for Sc, Ss in ((50, 128), (128, 50), (128, 206), (206, 128), (128, 128)):
+            cfgs.append(dict(Sc=Sc, Ss=Ss, segc=3, segs=3, msc=16, known=True, req=(Ss - 14, Ss - 10), resp=(2, 2)))
+            cfgs.append(dict(Sc=Sc, Ss=Ss, segc=3, segs=3, msc=16, known=True, req=(2, 2), resp=(Sc - 14, Sc - 10)))
+        cfgs.append(dict(Sc=50, Ss=128, segc=3, segs=3, msc=16, known=False, req=(114, 118), resp=(2, 2)))
         for c in cfgs:
             out.append(Inst(limits_scn, dict(c, wmax=127), budget=80, path_timeout=60, label=label(c)))
     else:
@@ -202,5 +213,5 @@ def instances(tier):
                 out.append(Inst(limits_scn, dict(c, wmax=8), budget=600, path_timeout=120, label=label(c)))
         for Sx in (1024, 1476):
             c = dict(Sc=Sx, Ss=Sx, segc=3, segs=3, msc=16, known=True, req=(Sx - 14, Sx - 10), resp=(2, 2))
-            out.append(Inst(limits_scn, dict(c, wmax=127), budget=600, path_timeout=120, label=label(c)))
+            out.append(Inst(limits_scn, dict(c, wmax=127), budget=2400, path_timeout=600, label=label(c)))
     return out
